@@ -173,6 +173,13 @@ func (p *Prog) propFunctions(prop string) []*FuncInfo {
 					}
 				}
 			}
+			for _, cs := range ct.CallSites {
+				for _, c := range cs {
+					if hasProp(c.Props, prop) {
+						serves = true
+					}
+				}
+			}
 		}
 		if !serves {
 			continue
